@@ -162,7 +162,8 @@ def check_energies(ctx: Ctx, c: Dict[str, Any]) -> None:
     # ... with every constructor option set (the module must hand each of them on): 'none' maps compared entry by entry
     h2 = [1.5 * v for v in h]
     for cls, fn, kw in ((LF.Bending, L.bending_loss, {}), (LF.Curvature, L.curvature_loss, {}), (LF.Diffusion, L.diffusion_loss, {}), (LF.Divergence, L.divergence_loss, {}),
-                        (LF.TotalVariation, L.total_variation_loss, {}), (LF.GradLoss, L.grad_loss, dict(p=3, q=0.5)),
+                        (LF.TotalVariation, L.total_variation_loss, {}), (LF.GradLoss, L.grad_loss, dict(p=3, q=0.5)), (LF.GradLoss, L.grad_loss, dict(p=2, q=None)),
+                        (LF.GradLoss, L.grad_loss, dict(p=3, q=None)), (LF.GradLoss, L.grad_loss, dict(p=1.5, q=None)), (LF.GradLoss, L.grad_loss, dict(p=0.5, q=None)),
                         (LF.Elasticity, L.elasticity_loss, dict(first_parameter=1.5, second_parameter=0.25)), (LF.Elasticity, L.elasticity_loss, dict(poissons_ratio=0.25, youngs_modulus=2.0))):
         for okw in (dict(mode="central", spacing=h2), dict(mode="sobel", spacing=h2[0]), dict(sigma=0.7, spacing=h2), dict(spacing=h2, reduction="sum")):
             full = dict(reduction="none", **kw)
@@ -295,6 +296,15 @@ def check_ic(ctx: Ctx, c: Dict[str, Any]) -> None:
                 exp = (err_exp * fac).norm(dim=-1)
                 mk = torch.zeros((1, 1) + tuple(reversed(n)), dtype=torch.float64)
                 mk[(0, 0) + tuple(slice(1, None) for _ in range(D))] = 1.0
+                # foreground = wherever the mask is NOT zero, whatever its values (soft weights, labels, 0/255): same results as the binary mask
+                for mname, mval in (("soft", 0.5), ("label", 3.0), ("255", 255.0)):
+                    mk2 = mk * mval
+                    mk2[(0, 0) + tuple(slice(2, None) for _ in range(D))] = mval * 2 if mname == "label" else mval
+                    for red in ("mean", "sum"):
+                        v_b = float(L.inverse_consistency_loss(fwd_lin.clone(), fwd_lin.clone(), grid=g, units=units, mask=mk, reduction=red))
+                        v_m = float(L.inverse_consistency_loss(fwd_lin.clone(), fwd_lin.clone(), grid=g, units=units, mask=mk2, reduction=red))
+                        if abs(v_b - v_m) > 1e-9 * max(1.0, abs(v_b)):
+                            ctx.violation(dict(**sig, what="mask_values", mask=mname, red=red), f"'{red}' with a {mname} mask (non-zero values {mval}) is {v_m}, with the binary mask of the same foreground {v_b}", c)
                 em = L.inverse_consistency_loss(fwd_lin.clone(), fwd_lin.clone(), grid=g, units=units, mask=mk, reduction="none")
                 em = em[0] if em.ndim > exp.ndim else em
                 want = exp * mk[0, 0]
